@@ -148,6 +148,14 @@ func checkC12(r *Run) {
 				extra1 := descgen.M("AaaUnrelated", descgen.F("Whatever"), descgen.F("Number", descgen.Sc(ir.Int64)))
 				extra2 := descgen.M("ZzzUnrelated", descgen.F("Other", descgen.Rep()))
 				e.File.Messages = append(append([]*ir.Message{extra1}, e.File.Messages...), extra2)
+				if k%2 == 1 {
+					// ... and many of them (whatever the generator counts per message must not run over)
+					var fill []*ir.Message
+					for n := 0; n < 90; n++ {
+						fill = append(fill, descgen.M(fmt.Sprintf("AaaFiller%02d", n), descgen.F("Whatever")))
+					}
+					e.File.Messages = append(fill, e.File.Messages...)
+				}
 				ext = "extra-messages"
 			case 2:
 				if e.File.Dep == nil {
@@ -377,6 +385,15 @@ func checkC14(r *Run) {
 			return descgen.Rename(e, n+"emptyentries")
 		})
 	}
+	// top-level YAML keys under the spelling the command line uses for the option (`custom_duration`, `sensitive`):
+	// no YAML option is called like that, so they are ignored wherever they stand in the file
+	reqs = append(reqs, func() *descgen.Entry {
+		e := descgen.CuratedByName("k1")
+		occ := descgen.Occurrences(e.File, e.Cfg.Types)
+		e.RawYAML = []string{"custom_duration: \"BillingDuration\"\n", "sensitive:\n  - \"" + occ[3%len(occ)].Path + "\"\n  - \"" + occ[7%len(occ)].Path + "\"\n", "exclude:\n  - \"" + occ[5%len(occ)].Path + "\"\n"}
+		e.Tags = append(e.Tags, "cli-spellings-as-yaml-keys")
+		return descgen.Rename(e, "k1clispellings")
+	})
 	// entries that name no field but look like patterns over real ones (shell metacharacters, an unclosed bracket)
 	for _, n := range []string{"k5", "k9"} {
 		n := n
@@ -655,7 +672,7 @@ func checkC16(r *Run) {
 			return &descgen.Entry{Name: "plain16", File: f, Cfg: c}
 		}
 		g := grp{name: "plain16"}
-		for k, what := range []string{"all-yaml", "all-cli/no-config-param", "all-cli/comment-only-file", "all-cli/blank-file", "all-yaml/anchors-and-aliases", "all-yaml/list-parameters-without-value", "all-yaml/config-path-with-plus-signs"} {
+		for k, what := range []string{"all-yaml", "all-cli/no-config-param", "all-cli/comment-only-file", "all-cli/blank-file", "all-yaml/anchors-and-aliases", "all-yaml/list-parameters-without-value", "all-yaml/config-path-with-plus-signs", "all-yaml/config-path-not-in-clean-form"} {
 			e := mkPlain()
 			c := caseFrom(e)
 			c.NoWrite = true
@@ -679,6 +696,9 @@ func checkC16(r *Run) {
 			case 6:
 				// where the file lives is no part of the configuration: `+` separates list items, not paths
 				c.CfgDir = "cfg-c++/a+b"
+			case 7:
+				// ... nor is the way the path is spelled
+				c.CfgDir = "cfg-dots/./sub/..//sub"
 			}
 			c.Tags = append(c.Tags, what)
 			g.cases = append(g.cases, c)
@@ -1023,6 +1043,15 @@ func checkC18(r *Run) {
 					msg.Fields = append(msg.Fields, f)
 					if excl {
 						e.Cfg.ExcludeFields = append(e.Cfg.ExcludeFields, pos+"."+fname)
+						// an excluded field is gone whatever other lists name it as well
+						switch (pi + ki) % 4 {
+						case 1:
+							e.Cfg.RequiredFields = append(e.Cfg.RequiredFields, pos+"."+fname)
+						case 2:
+							e.Cfg.SensitiveFields = append(e.Cfg.SensitiveFields, pos+"."+fname)
+						case 3:
+							e.Cfg.ComputedFields = append(e.Cfg.ComputedFields, pos+"."+fname)
+						}
 					}
 					for _, root := range exclPathsOf {
 						for _, o := range descgen.Occurrences(e.File, []string{root}) {
